@@ -4,14 +4,15 @@ package mqttproxy
 
 // C14: MQTT topic routing equals MQTT 3.1.1 filter matching over any subscribe history.
 //
-// The real TopicManager (plus a real Session per connection, driven with the same call
-// sequences as client.go: processSubscribe / processUnsubscribe / closeAndDelSession) runs in
-// lock-step with the reference of c14_model_test.go.  After EVERY operation
+// The real TopicManager, behind the real packet handlers of client.go (processSubscribe /
+// processUnsubscribe / closeAndDelSession on real Client and Session objects of a socket-less
+// Broker), runs in lock-step with the reference of c14_model_test.go.  After EVERY operation
 // findSubscribers(T) is called for all 119 topic names over {a,b,""} to depth 4 and compared
 // with the reference (client set; QoS within the QoS set of that client's own matching
 // subscriptions).
 
 import (
+	"errors"
 	"fmt"
 	"runtime"
 	"sort"
@@ -19,6 +20,8 @@ import (
 	"sync"
 	"sync/atomic"
 	"testing"
+
+	"github.com/eclipse/paho.mqtt.golang/packets"
 
 	"verif.local/kit"
 )
@@ -37,47 +40,94 @@ func init() {
 
 // ---------------------------------------------------------------- real side
 
-// c14Conn mimics what client.go does with the TopicManager and the Session.
+// c14Rig is a Broker reduced to what the SUBSCRIBE / UNSUBSCRIBE / close handlers of
+// client.go touch: the real TopicManager, the real SessionManager on the package's in-memory
+// storage, the client table.  No listener, no pipelines.
+type c14Rig struct {
+	b     *Broker
+	msgID uint16
+}
+
+func c14NewRig(cache int) *c14Rig {
+	b := &Broker{name: "c14", egName: "c14", clients: map[string]*Client{}, topicMgr: newTopicManager(cache)}
+	b.sessMgr = newSessionManager(b, newStorage(nil))
+	return &c14Rig{b: b}
+}
+
+func (rg *c14Rig) close() { rg.b.sessMgr.close() }
+
+// c14Conn is one client connection; every operation goes through the real handlers
+// processSubscribe / processUnsubscribe / closeAndDelSession of client.go.
 type c14Conn struct {
-	cid  string
-	sess *Session
-	ch   chan SessionStore
+	rg  *c14Rig
+	cid string
+	cl  *Client
 }
 
-func c14NewSession(cid string, ch chan SessionStore) *Session {
-	return &Session{
-		storeCh:      ch,
-		info:         &SessionInfo{ClientID: cid, CleanFlag: true, Topics: map[string]int{}},
-		done:         make(chan struct{}),
-		pending:      map[uint16]*Message{},
-		pendingQueue: []uint16{},
+// connect does what Broker.handleConn does after a successful CONNECT with CleanSession=1
+// (client table, setSession, re-subscription of the session's topics), without a socket.
+func (rg *c14Rig) connect(cid string) *c14Conn {
+	cp := packets.NewControlPacket(packets.Connect).(*packets.ConnectPacket)
+	cp.ClientIdentifier = cid
+	cp.CleanSession = true
+	cl := newClient(cp, rg.b, nil, nil)
+	rg.b.Lock()
+	rg.b.clients[cid] = cl
+	rg.b.setSession(cl, cp)
+	rg.b.Unlock()
+	if topics, qoss, _ := cl.session.allSubscribes(); len(topics) > 0 {
+		rg.b.topicMgr.subscribe(topics, qoss, cid)
+	}
+	return &c14Conn{rg: rg, cid: cid, cl: cl}
+}
+
+var errC14NoSuback = errors.New("SUBSCRIBE was not acknowledged (no SUBACK written)")
+
+// subscribe sends one SUBSCRIBE packet through processSubscribe; the packet counts as
+// accepted iff a SUBACK with its message id was written back.
+func (c *c14Conn) subscribe(fs []string, qs []byte) error {
+	p := packets.NewControlPacket(packets.Subscribe).(*packets.SubscribePacket)
+	c.rg.msgID++
+	p.MessageID = c.rg.msgID
+	p.Topics = fs
+	p.Qoss = qs
+	processSubscribe(c.cl, p)
+	select {
+	case w := <-c.cl.writeCh:
+		if ack, ok := w.(*packets.SubackPacket); ok && ack.MessageID == p.MessageID {
+			return nil
+		}
+		return fmt.Errorf("unexpected packet written instead of SUBACK: %v", w)
+	default:
+		return errC14NoSuback
 	}
 }
 
-// subscribe = processSubscribe: the session records the filters only if the topic manager
-// accepted the packet.
-func (c *c14Conn) subscribe(mgr *TopicManager, fs []string, qs []byte) error {
-	if err := mgr.subscribe(fs, qs, c.cid); err != nil {
-		return err
+// unsubscribe sends one UNSUBSCRIBE packet through processUnsubscribe (always acknowledged).
+func (c *c14Conn) unsubscribe(fs []string) {
+	p := packets.NewControlPacket(packets.Unsubscribe).(*packets.UnsubscribePacket)
+	c.rg.msgID++
+	p.MessageID = c.rg.msgID
+	p.Topics = fs
+	processUnsubscribe(c.cl, p)
+	select {
+	case <-c.cl.writeCh:
+	default:
 	}
-	c.sess.subscribe(fs, qs)
-	return nil
 }
 
-// unsubscribe = processUnsubscribe.
-func (c *c14Conn) unsubscribe(mgr *TopicManager, fs []string) error {
-	err := mgr.unsubscribe(fs, c.cid)
-	c.sess.unsubscribe(fs)
-	return err
+// disconnect = the end of Client.readLoop (closeAndDelSession, removeClient); the same
+// client id then connects again with a clean session.
+func (c *c14Conn) disconnect() {
+	c.cl.closeAndDelSession()
+	c.rg.b.removeClient(c.cid)
+	c.cl = c.rg.connect(c.cid).cl
 }
 
-// disconnect = closeAndDelSession for a clean session; the next connection of the same
-// client id starts with a fresh session.
-func (c *c14Conn) disconnect(mgr *TopicManager) error {
-	topics, _, _ := c.sess.allSubscribes()
-	err := mgr.unsubscribe(topics, c.cid)
-	c.sess = c14NewSession(c.cid, c.ch)
-	return err
+// shutdown closes the connection for good (ends the session's goroutine).
+func (c *c14Conn) shutdown() {
+	c.cl.closeAndDelSession()
+	c.rg.b.removeClient(c.cid)
 }
 
 type c14Snap struct {
@@ -148,6 +198,7 @@ const (
 type c14Exec struct {
 	r        *kit.Run
 	tb       *c14Tables
+	rig      *c14Rig // nil when the executor only compares (concurrent part)
 	mgr      *TopicManager
 	cache    int
 	ref      *c14Ref
@@ -162,11 +213,12 @@ type c14Exec struct {
 	lruFull  bool
 }
 
-func c14NewExec(r *kit.Run, cache, nClients int, ch chan SessionStore) *c14Exec {
+func c14NewExec(r *kit.Run, cache, nClients int) *c14Exec {
 	tb := c14Tab()
-	x := &c14Exec{r: r, tb: tb, mgr: newTopicManager(cache), cache: cache, ref: c14NewRef(), nClients: nClients, cover: map[string]bool{}}
+	rig := c14NewRig(cache)
+	x := &c14Exec{r: r, tb: tb, rig: rig, mgr: rig.b.topicMgr, cache: cache, ref: c14NewRef(), nClients: nClients, cover: map[string]bool{}}
 	for c := 0; c < nClients; c++ {
-		x.conns = append(x.conns, &c14Conn{cid: c14Name(c), ch: ch, sess: c14NewSession(c14Name(c), ch)})
+		x.conns = append(x.conns, rig.connect(c14Name(c)))
 	}
 	x.state = make([][c14MaxClients]uint8, len(tb.topics))
 	x.cause = make([][c14MaxClients]string, len(tb.topics))
@@ -218,7 +270,7 @@ func (x *c14Exec) step(op c14Op) {
 	switch op.K {
 	case "sub", "resub", "multisub":
 		var err error
-		if x.guard("subscribe", nil, func() { err = x.conns[op.C].subscribe(x.mgr, op.F, c14Qos(op.Q)) }) {
+		if x.guard("subscribe", nil, func() { err = x.conns[op.C].subscribe(op.F, c14Qos(op.Q)) }) {
 			return
 		}
 		if err != nil {
@@ -230,23 +282,15 @@ func (x *c14Exec) step(op c14Op) {
 			x.cover["op:"+op.K+":"+c14Shape(f)] = true
 		}
 	case "unsub", "multiunsub", "unsub-never":
-		var err error
-		if x.guard("unsubscribe", nil, func() { err = x.conns[op.C].unsubscribe(x.mgr, op.F) }) {
+		if x.guard("unsubscribe", nil, func() { x.conns[op.C].unsubscribe(op.F) }) {
 			return
-		}
-		if err != nil {
-			x.r.Violation(x.prefix+"valid-filter-rejected:unsubscribe:"+c14Wild(op.F...), x.detail(map[string]interface{}{"error": err.Error()}))
 		}
 		x.ref.apply(op)
 		x.cover["op:"+op.K+":"+op.N] = true
 		x.r.Count("op_"+op.K, 1)
 	case "disc":
-		var err error
-		if x.guard("disconnect", nil, func() { err = x.conns[op.C].disconnect(x.mgr) }) {
+		if x.guard("disconnect", nil, func() { x.conns[op.C].disconnect() }) {
 			return
-		}
-		if err != nil {
-			x.r.Violation(x.prefix+"valid-filter-rejected:disconnect-unsubscribe", x.detail(map[string]interface{}{"error": err.Error()}))
 		}
 		x.cover[fmt.Sprintf("op:disc:held=%d", len(x.ref.subs[op.C]))] = true
 		x.ref.apply(op)
@@ -256,7 +300,7 @@ func (x *c14Exec) step(op c14Op) {
 		var err error
 		what := "subscribe"
 		if op.K == "bad-sub" {
-			if x.guard("malformed-subscribe", nil, func() { err = x.conns[op.C].subscribe(x.mgr, op.F, c14Qos(op.Q)) }) {
+			if x.guard("malformed-subscribe", nil, func() { err = x.conns[op.C].subscribe(op.F, c14Qos(op.Q)) }) {
 				return
 			}
 			if err == nil {
@@ -266,15 +310,11 @@ func (x *c14Exec) step(op c14Op) {
 			}
 		} else {
 			what = "unsubscribe"
-			if x.guard("malformed-unsubscribe", nil, func() { err = x.conns[op.C].unsubscribe(x.mgr, op.F) }) {
+			// UNSUBSCRIBE is always acknowledged; for a malformed filter only "nothing changes" is demanded
+			if x.guard("malformed-unsubscribe", nil, func() { x.conns[op.C].unsubscribe(op.F) }) {
 				return
 			}
-			// whether UNSUBSCRIBE of a malformed filter reports an error is not demanded; only that nothing changes
-			if err != nil {
-				x.r.Count("malformed_unsubscribe_rejected", 1)
-			} else {
-				x.r.Count("malformed_unsubscribe_silently_ignored", 1)
-			}
+			x.r.Count("malformed_unsubscribe_checked", 1)
 		}
 		after := c14Snapshot(x.mgr)
 		if !c14SameEntries(before.entries, after.entries) || before.nodes != after.nodes {
@@ -387,26 +427,16 @@ func (x *c14Exec) finish() {
 	if x.lruFull {
 		x.r.Count("lru_at_capacity", 1)
 	}
-}
-
-// c14Drain consumes what Session.store() sends (it spawns one sending goroutine per call).
-func c14Drain() (chan SessionStore, func()) {
-	ch := make(chan SessionStore, 4096)
-	stop := make(chan struct{})
-	go func() {
-		for {
-			select {
-			case <-ch:
-			case <-stop:
-				return
-			}
+	if x.rig != nil {
+		for _, c := range x.conns {
+			kit.Recover(c.shutdown)
 		}
-	}()
-	return ch, func() { close(stop) }
+		x.rig.close()
+	}
 }
 
 const c14Rule = "filters over levels {a,b,\"\",+,#} to depth 4 (never the empty filter), topics = all 119 names over {a,b,\"\"} to depth 4 (never empty, never '$'); " +
-	"real TopicManager + real Session driven like client.go (processSubscribe/processUnsubscribe/closeAndDelSession) in lock-step with a map reference and the textbook recursive matcher; " +
+	"real TopicManager + SessionManager/Session driven through the real handlers of client.go (processSubscribe / processUnsubscribe / closeAndDelSession; accepted = SUBACK written) in lock-step with a map reference and the textbook recursive matcher; " +
 	"after every operation findSubscribers is compared for all topics (client set, QoS within the client's own matching subscriptions); malformed filters must be rejected with the trie unchanged; " +
 	"after a full teardown the trie must be empty; distinct = (operation kind x filter shape / pruning class / malformation class) and (filter shape x match kind: exact-depth, hash-parent, hash-rest, plus-on-empty-level, empty-level)"
 
@@ -419,8 +449,6 @@ func TestVerif_C14_Systematic(t *testing.T) {
 	defer r.Finish()
 	r.Rule("systematic prefix. " + c14Rule)
 	tb := c14Tab()
-	ch, stop := c14Drain()
-	defer stop()
 	idx := 0
 	run := func(desc interface{}, cache, nClients int, script []c14Op) {
 		i := idx
@@ -429,7 +457,7 @@ func TestVerif_C14_Systematic(t *testing.T) {
 			return
 		}
 		r.Case(i, desc)
-		x := c14NewExec(r, cache, nClients, ch)
+		x := c14NewExec(r, cache, nClients)
 		for _, op := range script {
 			x.step(op)
 		}
@@ -516,9 +544,7 @@ func TestVerif_C14_Histories(t *testing.T) {
 	r := kit.Start(t, "C14")
 	defer r.Finish()
 	r.Rule("seeded histories: 3-4 clients x 25 operations (subscribe 35%, re-subscribe with the other QoS 10%, unsubscribe 20%, unsubscribe of a filter the client never subscribed 10% (held by another client / prefix / extension / absent), disconnect 6%, malformed subscribe 6% / unsubscribe 4%, multi-filter subscribe 9%) over a pool of 5-9 structurally related filters, topicCacheSize 1-4, a full teardown + residue check at the end and in 40% of the histories also in the middle. " + c14Rule)
-	r.Assume("QoS values 0 and 1 only; one well-formed or one malformed filter per packet, or several well-formed ones (packets mixing well-formed and malformed filters are explored non-decidingly in TestVerif_C14_MixedPacketsExplore); disconnect = clean-session close (closeAndDelSession)")
-	ch, stop := c14Drain()
-	defer stop()
+	r.Assume("QoS values 0 and 1 only; one well-formed or one malformed filter per packet, or several well-formed ones (packets mixing well-formed and malformed filters are handled by TestVerif_C14_MixedPackets); disconnect = clean-session close (closeAndDelSession)")
 	n := r.N(1500, 60000)
 	for i := 0; i < n; i++ {
 		if !r.Mine(i) {
@@ -529,7 +555,7 @@ func TestVerif_C14_Histories(t *testing.T) {
 		cache := 1 + rng.Intn(4)
 		script := c14GenHistory(rng, nClients, 25)
 		r.Case(i, map[string]interface{}{"clients": nClients, "topicCacheSize": cache, "ops": script})
-		x := c14NewExec(r, cache, nClients, ch)
+		x := c14NewExec(r, cache, nClients)
 		for _, op := range script {
 			x.step(op)
 		}
@@ -692,7 +718,7 @@ func TestVerif_C14_Concurrent(t *testing.T) {
 
 		var (
 			wg            sync.WaitGroup
-			start         = make(chan struct{})
+			start               = make(chan struct{})
 			writersLeft   int32 = nWriters
 			routersWarmed int32
 			overlapRoutes int64
@@ -854,71 +880,103 @@ func TestVerif_C14_Concurrent(t *testing.T) {
 	r.Require("residue_checks", 1)
 }
 
-// ---------------------------------------------------------------- part 4: non-deciding exploration
+// ---------------------------------------------------------------- part 4: packets mixing well-formed and malformed filters
 
-// TestVerif_C14_MixedPacketsExplore: SUBSCRIBE / UNSUBSCRIBE packets that mix well-formed and
-// malformed filters.  What "rejected" means for such a packet (whole packet or only the
-// malformed filter) is left open by the property, so nothing here can produce a violation;
-// the observed behaviour is recorded in the evidence counters and notes.
-func TestVerif_C14_MixedPacketsExplore(t *testing.T) {
+// TestVerif_C14_MixedPackets: SUBSCRIBE / UNSUBSCRIBE packets that mix well-formed and
+// malformed filters.  What "rejected" means for such a packet (the whole packet or only the
+// malformed filter) is left open by the property, so the state right after such a packet is
+// only recorded (counters explore_*).  Decided is only what every reading agrees on: once the
+// client has disconnected (clean session) it holds no subscription at all and must not be
+// routed to for any topic, and a bystander client is routed exactly as the reference says.
+func TestVerif_C14_MixedPackets(t *testing.T) {
 	r := kit.Start(t, "C14")
 	defer r.Finish()
-	r.Rule("non-deciding: packets mixing well-formed and malformed filters, driven through the processSubscribe/processUnsubscribe/closeAndDelSession call sequences; only counters are recorded")
-	ch, stop := c14Drain()
-	defer stop()
-	n := r.N(200, 2000)
+	r.Rule("SUBSCRIBE [w,m] / [m,w] and UNSUBSCRIBE [w,m] / [m,w] (w well-formed and subscribed before in the UNSUBSCRIBE cases, m malformed) by client c0 through the real handlers, bystander c1 with two subscriptions; state right after the packet is recorded only; decided after c0 disconnected: c0 is routed for no topic, c1 exactly as the reference; distinct = (packet kind, order, malformation class, immediate outcome)")
+	tb := c14Tab()
+	n := r.N(240, 4800)
 	for i := 0; i < n; i++ {
 		if !r.Mine(i) {
 			continue
 		}
 		rng := r.CaseRand(i)
-		good, good2 := c14RandFilter(rng), c14RandFilter(rng)
-		bad, class := c14Malform(rng, c14RandFilter(rng))
-		badFirst := rng.Intn(2) == 0
-		r.Case(i, map[string]interface{}{"good": good, "bad": bad, "badFirst": badFirst})
-		mgr := newTopicManager(1 + rng.Intn(4))
-		conn := &c14Conn{cid: "c0", ch: ch, sess: c14NewSession("c0", ch)}
-		_, _, panicked := kit.Recover(func() {
-			// SUBSCRIBE [good, bad] / [bad, good]
-			fs := []string{good, bad}
-			if badFirst {
-				fs = []string{bad, good}
-			}
-			err := conn.subscribe(mgr, fs, []byte{0, 1})
-			s := c14Snapshot(mgr)
-			switch {
-			case err == nil:
-				r.Count("explore_mixed_subscribe_accepted", 1)
-			case len(s.entries) == 0:
-				r.Count("explore_mixed_subscribe_rejected_nothing_inserted", 1)
-			default:
-				r.Count("explore_mixed_subscribe_rejected_but_wellformed_filter_inserted", 1)
-				conn.disconnect(mgr)
-				if s2 := c14Snapshot(mgr); len(s2.entries) > 0 {
-					r.Count("explore_partial_insert_survives_disconnect", 1)
-					r.Note("mixed SUBSCRIBE %q: error returned, %q stays in the trie and is not in the session, so closeAndDelSession does not remove it (class %s)", fs, good, class)
-				}
-			}
-			// UNSUBSCRIBE [bad, good2] after a successful subscribe of good2
-			mgr2 := newTopicManager(2)
-			conn2 := &c14Conn{cid: "c1", ch: ch, sess: c14NewSession("c1", ch)}
-			if conn2.subscribe(mgr2, []string{good2}, []byte{1}) == nil {
-				conn2.unsubscribe(mgr2, []string{bad, good2})
-				if s := c14Snapshot(mgr2); len(s.entries) > 0 {
-					r.Count("explore_mixed_unsubscribe_left_wellformed_filter_subscribed", 1)
-					conn2.disconnect(mgr2)
-					if s2 := c14Snapshot(mgr2); len(s2.entries) > 0 {
-						r.Count("explore_partial_unsubscribe_survives_disconnect", 1)
-						r.Note("mixed UNSUBSCRIBE [%q %q]: trie keeps %q while the session forgot it, so closeAndDelSession does not remove it", bad, good2, good2)
-					}
-				} else {
-					r.Count("explore_mixed_unsubscribe_removed_wellformed_filter", 1)
-				}
+		w := c14RandFilter(rng)
+		m, class := c14Malform(rng, c14RandFilter(rng))
+		kind := []string{"subscribe", "unsubscribe"}[i%2]
+		order := []string{"malformed-last", "malformed-first"}[(i/2)%2]
+		cache := 1 + rng.Intn(4)
+		by := []string{c14RandFilter(rng), c14Derive(rng, w)}
+		r.Case(i, map[string]interface{}{"packet": kind, "order": order, "wellformed": w, "malformed": m, "bystander": by, "topicCacheSize": cache})
+		x := c14NewExec(r, cache, 2)
+		x.prefix = "mixed-packet:"
+		// bystander c1, and for UNSUBSCRIBE the acknowledged subscription of w by c0 (all compared as usual)
+		x.step(c14Op{K: "multisub", C: 1, F: by[:1+c14Btoi(by[0] != by[1])], Q: []int{0, 1}[:1+c14Btoi(by[0] != by[1])]})
+		if kind == "unsubscribe" {
+			x.step(c14Op{K: "sub", C: 0, F: []string{w}, Q: []int{1}})
+		}
+		fs := []string{w, m}
+		if order == "malformed-first" {
+			fs = []string{m, w}
+		}
+		outcome := "?"
+		panicked := x.guard(kind, nil, func() {
+			if kind == "subscribe" {
+				err := x.conns[0].subscribe(fs, []byte{0, 1})
+				_, inTrie := c14Snapshot(x.mgr).entries[w+"\x00c0"]
+				outcome = fmt.Sprintf("acknowledged=%v,wellformed-filter-in-trie=%v", err == nil, inTrie)
+			} else {
+				x.conns[0].unsubscribe(fs)
+				_, inTrie := c14Snapshot(x.mgr).entries[w+"\x00c0"]
+				outcome = fmt.Sprintf("wellformed-filter-still-in-trie=%v", inTrie)
 			}
 		})
 		if panicked {
-			r.Count("explore_panics", 1)
+			x.finish()
+			continue
 		}
-		r.Cover("explore:" + class + fmt.Sprintf(":badFirst=%v", badFirst))
+		r.Count("explore_"+kind+"_"+order+":"+outcome, 1)
+		r.Cover("mixed:" + kind + ":" + order + ":" + class + ":" + outcome)
+		// c0 disconnects: in every reading it now holds nothing
+		x.hist = append(x.hist, c14Op{K: "mixed-" + kind, C: 0, F: fs, N: class}, c14Op{K: "disc", C: 0})
+		if x.guard("disconnect", nil, func() { x.conns[0].disconnect() }) {
+			x.finish()
+			continue
+		}
+		x.ref.apply(c14Op{K: "disc", C: 0})
+		stale := 0
+		for ti, T := range tb.topics {
+			got, err := x.mgr.findSubscribers(T)
+			if err != nil {
+				r.Violation("mixed-packet:routing:error-on-valid-topic-name", x.detail(map[string]interface{}{"topic": T, "error": err.Error()}))
+				continue
+			}
+			if _, ok := got["c0"]; ok {
+				stale++
+				if stale == 1 {
+					r.Violation("mixed-packet:"+kind+":"+order+":wellformed-filter-survives-disconnect", x.detail(map[string]interface{}{
+						"topic": T, "routed_to": got, "packet": fs, "immediate_outcome": outcome, "trie": c14EntriesText(c14Snapshot(x.mgr).entries)}))
+				}
+			}
+			mask := x.ref.wantMask(tb, ti, 1)
+			q, ok := got["c1"]
+			if (mask != 0) != ok || ok && (q > 7 || mask&(1<<q) == 0) {
+				r.Violation("mixed-packet:bystander-routing-differs-from-reference", x.detail(map[string]interface{}{"topic": T, "routed_to": got}))
+			}
+		}
+		r.Eval(1)
+		if stale == 0 {
+			r.Count("mixed_"+kind+"_"+order+"_clean_after_disconnect", 1)
+		} else {
+			r.Count("mixed_"+kind+"_"+order+"_stale_after_disconnect", 1)
+			// clean the trie by hand so that nothing else is attributed to this case
+			x.mgr.unsubscribe([]string{w}, "c0")
+		}
+		x.finish()
 	}
+}
+
+func c14Btoi(b bool) int {
+	if b {
+		return 1
+	}
+	return 0
 }
